@@ -140,6 +140,11 @@ func distinctIdx(a, b string) bool {
 // rdObj: contents (Array Int S) of object obj in heap h.
 func (c *Ctx) rdObj(h, obj string) string {
 	cur := h
+	if en, ok := c.oldSame[cur]; ok && c.objOld(obj, 0) {
+		// a havocked heap agrees with the entry heap on pre-existing objects (proved
+		// frame); reading an entry-time object needs no frame reasoning in the solver
+		cur = en
+	}
 	for i := 0; i < 64; i++ {
 		d, ok := c.heapDefs[cur]
 		if !ok {
@@ -191,6 +196,14 @@ func (c *Ctx) wrObj(st *State, key, obj, arr string) {
 	n := c.fresh(heapKey(key))
 	c.cmds = append(c.cmds, fmt.Sprintf("(declare-fun %s () %s)", n, c.heapSortOf(key)), fmt.Sprintf("(assert (= %s (store %s %s %s)))", n, h, obj, arr))
 	c.heapDefs[n] = heapDef{h, obj, arr}
+	if isFreshObj(obj) {
+		// writing a fresh object leaves pre-existing objects alone
+		if en, ok := c.oldSame[h]; ok {
+			c.oldSame[n] = en
+		} else if strings.HasSuffix(h, "_0") && strings.HasPrefix(h, "H_") {
+			c.oldSame[n] = h
+		}
+	}
 	st.heaps[key] = n
 }
 
@@ -207,4 +220,57 @@ func (c *Ctx) wrElem(st *State, key, obj, idx, val string) {
 	h := c.heap(st, key)
 	arr := c.rdObj(h, obj)
 	c.wrObj(st, key, obj, c.arrStore(arr, idx, val, "(Array Int "+key+")"))
+}
+
+// objOld: the object term denotes an object that existed at function entry:
+// it is built from parameters, captured cells, globals and entry heaps only
+// (integer/float/bool leaves such as loop counters are irrelevant).
+func (c *Ctx) objOld(t string, depth int) bool {
+	if depth > 6 {
+		return false
+	}
+	i := 0
+	for i < len(t) {
+		ch := t[i]
+		if !(ch == '_' || ch >= 'a' && ch <= 'z' || ch >= 'A' && ch <= 'Z') {
+			i++
+			continue
+		}
+		j := i
+		for j < len(t) && isIdentChar(t[j]) {
+			j++
+		}
+		id := t[i:j]
+		i = j
+		if strings.HasPrefix(id, "H_") {
+			if !strings.HasSuffix(id, "_0") {
+				return false
+			}
+			continue
+		}
+		if !strings.Contains(id, "!") {
+			continue
+		}
+		if strings.HasPrefix(id, "p_") || strings.HasPrefix(id, "fv_") {
+			continue
+		}
+		if strings.HasPrefix(id, "obj_") {
+			return false
+		}
+		if d, ok := c.defs[id]; ok {
+			if !c.objOld(d, depth+1) {
+				return false
+			}
+			continue
+		}
+		if srt, ok := c.constSort[id]; ok {
+			switch srt {
+			case "Int", "Bool", "F", "Real":
+				continue
+			}
+			return false
+		}
+		return false
+	}
+	return true
 }
